@@ -199,6 +199,22 @@ def check(chk):
     calls = [(src(c.func.value), call_attr(c)) for c in f.calls() if call_attr(c) == "disable"]
     ok = ("self.config['main_coil']", "disable") in calls and ("self.config['hold_coil']", "disable") in calls
     chk.ob("FLAG-2", "sw_release switches off main and hold coil", ok, f.where(), construct=f.ident, text="sw_release coils")
+    rcfg = f.cfg()
+    main_off = [n.id for n, c in rcfg.calls_named("disable") if src(c.func.value) == "self.config['main_coil']"]
+    w = rcfg.must_pass(rcfg.entry.id, main_off) if main_off else [rcfg.entry.id]
+    chk.ob("FLAG-2", "every returning path of sw_release switches the main coil off (whatever the button or the enabled flag say)", w is None,
+           f.where(), construct=f.ident,
+           detail="disable() removes the hardware rules first and then relies on sw_release: if that returns early while the cabinet button "
+                  "is held, nothing is left that will ever release the coil",
+           text="sw_release main coil off on every path", path=rcfg.fmt_path(w, f) if w and len(w) > 1 else None, nontrivial=True)
+    hold_off = [n for n, c in rcfg.calls_named("disable") if src(c.func.value) == "self.config['hold_coil']"]
+    from sa.cfg import canon_set as _cs
+    ok = bool(hold_off) and all(set(_cs(rcfg.guards_at(n.id))) <= set(_cs({"self.config['hold_coil']": True})) for n in hold_off)
+    chk.ob("FLAG-2", "sw_release switches the hold coil off whenever there is one", ok, f.where(), construct=f.ident, text="sw_release hold coil guard")
+    clr = [n.id for n in rcfg.nodes if n.kind == "stmt" and isinstance(n.ast, ast.Assign) and src(n.ast.targets[0]) == "self._sw_flipped" and
+           src(n.ast.value) == "False"]
+    w = rcfg.must_pass(rcfg.entry.id, clr) if clr else [rcfg.entry.id]
+    chk.ob("FLAG-2", "every returning path of sw_release forgets the software flip", w is None, f.where(), construct=f.ident, text="sw_release clears the mark")
     # autofire: a hit on a disabled device has no effect (no counting, no self re-enable)
     for c, rel in ((af, AF), (repo.cls(KB, "Kickback"), KB)):
         f = c.methods["_hit"]
@@ -309,6 +325,36 @@ def check(chk):
     chk.ob("DOM-20", "a tilt posts the tilt event", ok, f.where(), construct=f.ident, text="tilt event")
     from sa.helpers import game_ended_only_through_its_api
     game_ended_only_through_its_api(chk, "DOM-20")
+    # the tilt switches are armed by every start of the tilt mode: what mode_stop takes away (service mode stops every mode) mode_start puts back
+    TL_ = "mpf/modes/tilt/code/tilt.py"
+    tcls = repo.cls(TL_, "Tilt")
+    reg, rem, mstart, mstop = (tcls.methods.get(k) for k in ("_register_switch_handlers", "_remove_switch_handlers", "mode_start", "mode_stop"))
+    chk.need(reg is not None and rem is not None and mstart is not None and mstop is not None, "DOM-20",
+             "Tilt has mode_start / mode_stop and the switch handler registration / removal helpers", repo.func(TL_, "Tilt.tilt"))
+    chk.analysed(reg, rem, mstart, mstop)
+    scfg = mstart.cfg()
+    regs = [n.id for n, c in scfg.calls_named("_register_switch_handlers") if dotted(c.func.value) == "self"]
+    w = scfg.must_pass(scfg.entry.id, regs) if regs else [scfg.entry.id]
+    chk.ob("DOM-20", "every start of the tilt mode registers the tilt switch handlers", w is None, mstart.where(), construct=mstart.ident,
+           detail="mode_stop removes them (every visit of the service mode stops and restarts the tilt mode); registered once at boot they are "
+                  "gone after the first restart: the machine never tilts again and no rule is removed on a tilt",
+           text="tilt switches armed at mode start", path=scfg.fmt_path(w, mstart) if w and len(w) > 1 else None, nontrivial=True)
+    others = [m_.qualname for m_ in tcls.methods.values() if m_ is not mstart and any(call_attr(c) == "_register_switch_handlers" for c in m_.calls())]
+    chk.ob("DOM-20", "the tilt switch handlers are registered from mode_start only (not twice)", not others, tcls.where(), detail=", ".join(others),
+           construct=tcls.ident, text="tilt switch registration sites")
+
+    def _pairs(fn, api):
+        out = set()
+        for lp in [x for x in walk_local(fn.node) if isinstance(x, ast.For)]:
+            tag = [src(y) for y in ast.walk(lp.iter) if isinstance(y, ast.Subscript) and src(y.value) == "self.tilt_config"]
+            for c in ast.walk(lp):
+                if isinstance(c, ast.Call) and call_attr(c) in api:
+                    cb = kwarg(c, "callback")
+                    out.add((tag[0] if tag else None, src(cb) if cb is not None else None))
+        return out
+    pr, pm = _pairs(reg, {"add_switch_handler_obj", "add_switch_handler"}), _pairs(rem, {"remove_switch_handler", "remove_switch_handler_obj"})
+    chk.ob("DOM-20", "mode_stop removes exactly the (switch tag, callback) pairs that mode_start registers", pr == pm and len(pr) >= 3, rem.where(),
+           detail="registered %s, removed %s" % (sorted(map(str, pr)), sorted(map(str, pm))), construct=rem.ident, text="tilt switch handler pairs")
     # when the tilt is over (settle time passed) the game's tilted flag is cleared - whenever there is a game, whatever else is pending:
     # a flag left set makes tilt() and tilt_warning() return early for the rest of the game (rules stay installed on a tilted machine)
     td = repo.func("mpf/modes/tilt/code/tilt.py", "Tilt._tilt_done")
@@ -388,6 +434,7 @@ def battery():
         M("clear_hw_rule keeps PSU handler", PC, "        if rule.switch_key:\n            self.machine.switch_controller.remove_switch_handler_by_key(rule.switch_key)\n", "", "PAIR-11"),
         M("double enable installs twice", FL, "        # prevent duplicate enable\n        if self._enabled:\n            return\n", "", "FLAG-2"),
         M("autofire disable without guard", AF, "        if not self._enabled:\n            return\n        self._enabled = False\n", "        self._enabled = False\n", "FLAG-2"),
+        M("sw_release leaves the coil to the hardware rule while the button is held", FL, "        self._sw_flipped = False\n\n        # disable the flipper coil(s)\n", "        self._sw_flipped = False\n        if self._enabled and self.config['activation_switch'].state:\n            return\n\n        # disable the flipper coil(s)\n", "FLAG-2"),
         M("sw_flip while disabled", FL, "        if not self._enabled:\n            return\n\n        self._sw_flipped = True", "        self._sw_flipped = True", "FLAG-2"),
         M("disable leaves sw flip energised", FL, "        if self._sw_flipped:\n            # disable the coils if activated via sw_flip\n            self.sw_release()\n", "", "FLAG-2"),
         M("hits counted while disabled", AF, "        if not self._enabled:\n            return\n        if not self._ball_search_in_progress:\n            self.playfield.mark_playfield_active_from_device_action(self.name)", "        if self._enabled and not self._ball_search_in_progress:\n            self.playfield.mark_playfield_active_from_device_action(self.name)", "FLAG-2"),
@@ -397,6 +444,8 @@ def battery():
         M("flippers on at game start", Y, "    enable_events: event_handler|event_handler:ms|ball_started", "    enable_events: event_handler|event_handler:ms|ball_started, game_started", "TABLE-1", nth=1),
         M("spec key without handler", Y, "    sw_flip_events: event_handler|event_handler:ms|None", "    sw_flip_events: event_handler|event_handler:ms|None\n    sw_hold_events: event_handler|event_handler:ms|None", "TABLE-1"),
         M("enable outranks disable", FL, "    @event_handler(10)\n    def event_disable", "    @event_handler(0)\n    def event_disable", "TABLE-1"),
+        M("tilt switches armed once at boot", "mpf/modes/tilt/code/tilt.py", "    def mode_start(self, **kwargs):\n        \"\"\"Start mode.\"\"\"\n        self._register_switch_handlers()\n", "        self._register_switch_handlers()\n\n    def mode_start(self, **kwargs):\n        \"\"\"Start mode.\"\"\"\n", "DOM-20"),
+        M("slam tilt switch left registered", "mpf/modes/tilt/code/tilt.py", "            self.machine.switch_controller.remove_switch_handler(\n                switch_name=switch.name,\n                callback=self.slam_tilt)", "            pass", "DOM-20"),
         M("tilt without ball end", "mpf/modes/tilt/code/tilt.py", "        self.machine.game.end_ball()\n\n    def _tilted_ball_drain", "\n    def _tilted_ball_drain", "DOM-20"),
         # twins
         M("twin: append via call result", FL, "        rule = self.machine.platform_controller.set_pulse_on_hit_and_release_rule(", "        rule = self.machine.platform_controller.set_pulse_on_hit_and_release_rule(  # main", None),
